@@ -31,11 +31,16 @@ def run(ctx):
     ctx.call(GR.node_objects, "8")
     ctx.call(GR.worker_symmetry, "9")
     ctx.call(GR.flat_expansion, "10")
+    ctx.call(GR.dependency_table, "11")
 
 
 NODE = "cartgraph/node.py"
 G = "cartgraph/graph.py"
 MUTANTS = [
+    ("no-dependency-means-parse", "cartgraph/graph.py", "        if not object_dependency:\n            return [], []", "        if object_dependency:\n            return [], []", "11"),
+    ("attached-reuse-without-setup", "cartgraph/graph.py", "        if (len(test_node.cloned_nodes) > 0 or unique_new_node) and len(\n            test_node.setup_nodes\n        ) > 0:", "        if (len(test_node.cloned_nodes) > 0 or unique_new_node) or len(\n            test_node.setup_nodes\n        ) > 0:", "11"),
+    ("single-candidate-test-inverted", "cartgraph/graph.py", "        if len(filtered_parents) == 1:\n            if len(filtered_parents[0].cloned_nodes) > 0:", "        if len(filtered_parents) != 1:\n            if len(filtered_parents[0].cloned_nodes) > 0:", "11"),
+    ("fresh-parse-when-candidates-exist", "cartgraph/graph.py", "        if len(filtered_parents) == 0:\n            return [], self.parse_composite_nodes(", "        if len(filtered_parents) != 0:\n            return [], self.parse_composite_nodes(", "1"),
     ("param-shadowed", G, "            for node_object in test_node.objects:\n                object_parents = self.get_nodes(\n                    \"name\",\n                    rf\"(\\.|^){node_object.component_form}(\\.|$)\",",
      "            for test_object in test_node.objects:\n                object_parents = self.get_nodes(\n                    \"name\",\n                    rf\"(\\.|^){test_object.component_form}(\\.|$)\",", "1"),
     ("restriction-without-all", G, "            return [], self.parse_composite_nodes(\n                \"all..\" + setup_restr,", "            return [], self.parse_composite_nodes(\n                setup_restr,", "1c"),
